@@ -115,24 +115,36 @@ func doObs(p pipeline.ActionPlugin, ev *pipeline.Event) hx.Sx {
 
 func pathsSx(ps [][]string) hx.Sx { return hx.List(ps, pathSx) }
 
-// renameOps: what rename.Start makes of the config (unexported there: Find / Remove override,
-// unescapeMap, cfg.ParseFieldSelector), through the exported methods of rename.Config
-func renameOps(c *rename.Config) (preserve bool, ops []hx.Sx) {
+// renameParts: the pairs of the config without override (through the exported methods of rename.Config, as
+// rename.Start takes them), whether fields are preserved, and cfg.ParseFieldSelector of every unescaped
+// non-empty key (the oracle part: the model does the unescaping and the dropping of empty keys itself)
+func renameParts(c *rename.Config) (preserve bool, pairs, table []hx.Sx, selOK bool) {
 	conf := c.Clone()
 	val, idx := conf.Find("override")
 	preserve = idx == rename.NotFoundIdx || val == "false"
 	conf.Remove("override")
+	selOK = true
+	seen := map[string]bool{}
 	conf.ForEach(func(key, name string) {
-		if key == "" {
-			return
-		}
-		if key[0] == '_' {
+		pairs = append(pairs, hx.L(hx.S(key), hx.S(name)))
+		if key != "" && key[0] == '_' {
 			key = key[1:]
 		}
-		ops = append(ops, hx.L(pathSx(cfg.ParseFieldSelector(key)), hx.S(name)))
+		if key == "" || seen[key] {
+			return
+		}
+		seen[key] = true
+		sel := cfg.ParseFieldSelector(key)
+		if len(sel) == 0 {
+			selOK = false
+		}
+		table = append(table, hx.L(hx.S(key), pathSx(sel)))
 	})
-	return preserve, ops
+	return preserve, pairs, table, selOK
 }
+
+// renameSelOK: the hypothesis of c13_rename_total_wf on the selector oracle held in the last rename case
+var renameSelOK = true
 
 func jsonOpt(n *insaneJSON.Node) hx.Sx {
 	if n == nil {
@@ -180,14 +192,15 @@ func execExtra(which int, cs hx.Sx) hx.Sx {
 		if err != "" {
 			return badCfg(err)
 		}
-		preserve, ops := renameOps(conf.(*rename.Config))
+		preserve, pairs, table, selOK := renameParts(conf.(*rename.Config))
+		renameSelOK = selOK
 		p, e := newInstance("rename", cfgJSON, settingsOf([3]int{}), &nopCtl{}, 0)
 		if e != "" {
 			return badCfg(e)
 		}
 		root := rootOf(it[1])
 		defer insaneJSON.Release(root)
-		return hx.L(hx.Bool(preserve), hx.L(ops...), doObs(p, &pipeline.Event{Root: root}))
+		return hx.L(hx.Bool(preserve), hx.L(pairs...), hx.L(table...), doObs(p, &pipeline.Event{Root: root}))
 
 	case 43: // move
 		cfgJSON := hx.Bytes(it[0])
